@@ -27,6 +27,122 @@ use super::*;
 use crate::dsets::verif_c02_dsets::{sym_ops, Ops};
 use crate::dsyms::verif_c02_dsyms::{build_partial_dsym, sym_vs};
 use crate::verif_support::{assume, reach_end, vin};
+use crate::dsets::verif_c04_morphism::ArrSym;
+
+/// the array-backed implementor of c04_morphism.rs as a D-symbol: v = m / r
+impl<const N: usize, const D1: usize> DSym for ArrSym<N, D1> {
+    fn v(&self, i: usize, j: usize, d: usize) -> Option<usize> {
+        match (self.m(i, j, d), self.r(i, j, d)) {
+            (Some(m), Some(r)) if r > 0 => Some(m / r),
+            _ => None,
+        }
+    }
+}
+
+/// `cover` instantiated for the array-backed base symbol (no heap in the base: the cost is the cover's own
+/// construction, which allows more sheets / chambers than the PartialDSym instantiation below)
+fn cover_arr_body<const N: usize, const D1: usize, const K: usize, const KN: usize>(reach: bool) {
+    let dim = D1 - 1;
+    let o = sym_ops::<N, D1>(true);
+    assume(o.commuting());
+    // degrees: m = r * v with v in 1..=3, constant on (i,i+1)-orbits
+    let mut ms = [[0usize; N]; D1];
+    let mut i = 0;
+    while i + 1 < D1 {
+        let mut d = 1;
+        while d <= N {
+            let v: usize = vin();
+            assume(1 <= v && v <= 3);
+            ms[i][d - 1] = v * o.orbit_len(i, i + 1, d);
+            d += 1;
+        }
+        i += 1;
+    }
+    let mut i = 0;
+    while i + 1 < D1 {
+        let mut d = 1;
+        while d <= N {
+            assume(ms[i][o.get(i, d) - 1] == ms[i][d - 1]);
+            assume(ms[i][o.get(i + 1, d) - 1] == ms[i][d - 1]);
+            d += 1;
+        }
+        i += 1;
+    }
+    let base = ArrSym::<N, D1> { o, ms };
+
+    let mut smap = [[[0usize; N]; D1]; K];
+    let mut k = 0;
+    while k < K {
+        let mut i = 0;
+        while i < D1 {
+            let mut d = 0;
+            while d < N {
+                let x: usize = vin();
+                assume(x < K);
+                smap[k][i][d] = x;
+                d += 1;
+            }
+            i += 1;
+        }
+        k += 1;
+    }
+    let mut k = 0;
+    while k < K {
+        let mut i = 0;
+        while i < D1 {
+            let mut d = 1;
+            while d <= N {
+                let e = o.get(i, d);
+                assume(smap[smap[k][i][d - 1]][i][e - 1] == k);
+                d += 1;
+            }
+            i += 1;
+        }
+        k += 1;
+    }
+    let mut cops = Ops::<KN, D1> { op: [[0usize; KN]; D1] };
+    let mut i = 0;
+    while i < D1 {
+        let mut c = 1;
+        while c <= KN {
+            let (k, d) = ((c - 1) / N, (c - 1) % N + 1);
+            cops.op[i][c - 1] = N * smap[k][i][d - 1] + o.get(i, d);
+            c += 1;
+        }
+        i += 1;
+    }
+    let mut i = 0;
+    while i + 1 < D1 {
+        let mut c = 1;
+        while c <= KN {
+            let d = (c - 1) % N + 1;
+            assume(ms[i][d - 1] % cops.orbit_len(i, i + 1, c) == 0);
+            c += 1;
+        }
+        i += 1;
+    }
+
+    let cov = cover(&base, K, |k, i, d| smap[k][i][d - 1]);
+
+    assert!(cov.size() == KN && cov.dim() == dim, "C05.cover.size_dim");
+    let i: usize = vin();
+    let c: usize = vin();
+    assume(i <= dim && 1 <= c && c <= KN);
+    let d = (c - 1) % N + 1;
+    let e = cov.op(i, c);
+    assert!(e == Some(cops.get(i, c)), "C05.cover.op_as_prescribed");
+    let e = e.unwrap();
+    assert!((e - 1) % N + 1 == o.get(i, d), "C05.cover.projection_commutes");
+    assert!(cov.op(i, e) == Some(c), "C05.cover.involution");
+    if i < dim {
+        assert!(cov.r(i, i + 1, c) == Some(cops.orbit_len(i, i + 1, c)), "C05.cover.r_is_orbit_length");
+        assert!(cov.m(i, i + 1, c) == Some(ms[i][d - 1]), "C05.cover.degrees_preserved");
+        assert!(cov.v(i, i + 1, c) == Some(ms[i][d - 1] / cops.orbit_len(i, i + 1, c)), "C05.cover.v_is_m_over_r");
+    }
+    assert!(cov.is_complete(), "C05.cover.complete");
+    reach_end(reach);
+    std::mem::forget(cov);
+}
 
 fn cover_body<const N: usize, const D1: usize, const K: usize, const KN: usize>(reach: bool) {
     let dim = D1 - 1;
@@ -125,7 +241,15 @@ macro_rules! proofs {
 // @harness c05_cover_n1d2_k3 tier=thorough unwind=6 block=128 mem=44 timeout=3600 stretch
 // @harness c05_cover_n2d2_k2 tier=thorough unwind=7 block=128 mem=46 timeout=3600 stretch
 // @harness c05_cover_n1d3_k2 tier=thorough unwind=6 block=128 mem=44 timeout=3600 stretch
+// @harness c05_arr_n1d2_k2 tier=probe unwind=5 block=64 mem=11 timeout=1905
+// @harness c05_arr_n1d2_k3 tier=probe unwind=6 block=128 mem=24 timeout=3600
+// @harness c05_arr_n2d2_k2 tier=probe unwind=7 block=128 mem=24 timeout=3600
+// @harness c05_arr_n1d3_k2 tier=probe unwind=6 block=128 mem=24 timeout=3600
 proofs! {
+    c05_arr_n1d2_k2 => cover_arr_body::<1, 3, 2, 2>(false);
+    c05_arr_n1d2_k3 => cover_arr_body::<1, 3, 3, 3>(false);
+    c05_arr_n2d2_k2 => cover_arr_body::<2, 3, 2, 4>(false);
+    c05_arr_n1d3_k2 => cover_arr_body::<1, 4, 2, 2>(false);
     c05_cover_n1d2_k2 => cover_body::<1, 3, 2, 2>(false);
     c05_cover_n1d2_k2_reach => cover_body::<1, 3, 2, 2>(true);
     c05_cover_n1d2_k3 => cover_body::<1, 3, 3, 3>(false);
